@@ -67,11 +67,16 @@ A64AddrFail(s, ad) == IF ad[1] = "exhausted" THEN [s EXCEPT !.status = "model-he
 A64ValFail(s, v) == AFailS(s, IF v.why = "arithmetic on undefined value" THEN "undef" ELSE "value", v.why)
 
 \* operand-form restrictions of the printed instruction
+\* (the ranges are those the assembler accepts for the printed form - checked against LLVM's AArch64 assembler by C14:
+\* ADD/SUB/CMP take 0..4095 or a multiple of 4096 up to 4095*4096, of either sign (the assembler swaps ADD/SUB, CMP/CMN);
+\* LDR/STR take a scaled unsigned offset or, as LDUR/STUR, any offset in -256..255)
+AddImmOK(a) == LET m == IF a.s < 0 THEN 0 - a.s ELSE a.s IN ~a.big /\ (m <= 4095 \/ ((m % 4096) = 0 /\ m <= 16773120))
 A64Unencodable(i) ==
-  IF i.op \in {"ADD", "SUB"} /\ i.a[3].k = "imm" THEN (IF i.a[3].big \/ i.a[3].s < 0 \/ i.a[3].s > 4095 THEN i.op \o " immediate outside 0..4095" ELSE "")
-  ELSE IF i.op = "CMP" /\ i.a[2].k = "imm" THEN (IF i.a[2].big \/ i.a[2].s < 0 \/ i.a[2].s > 4095 THEN "CMP immediate outside 0..4095" ELSE "")
+  IF i.op \in {"ADD", "SUB", "ADDS", "SUBS"} /\ Len(i.a) >= 3 /\ i.a[3].k = "imm" THEN (IF ~AddImmOK(i.a[3]) THEN i.op \o " immediate is no 12-bit value (optionally shifted by 12)" ELSE "")
+  ELSE IF i.op = "CMP" /\ i.a[2].k = "imm" THEN (IF ~AddImmOK(i.a[2]) THEN "CMP immediate is no 12-bit value (optionally shifted by 12)" ELSE "")
   ELSE IF i.op \in {"LDR", "STR"} THEN
-       (IF i.a[2].off < 0 \/ i.a[2].off > 32760 \/ (i.a[2].off % 8) # 0 THEN i.op \o " offset outside 0..32760 or not a multiple of 8" ELSE "")
+       (IF ~((i.a[2].off >= -256 /\ i.a[2].off <= 255) \/ (i.a[2].off >= 0 /\ i.a[2].off <= 32760 /\ (i.a[2].off % 8) = 0))
+        THEN i.op \o " offset outside 0..32760 or not a multiple of 8" ELSE "")
   ELSE IF i.op \in {"LDP", "STP"} THEN
        (LET o == IF Len(i.a) = 3 THEN i.a[3].off
                  ELSE IF i.op = "LDP" THEN (IF Len(i.a) >= 4 /\ ~i.a[4].big THEN i.a[4].s ELSE 100000) ELSE i.a[3].off
